@@ -204,6 +204,9 @@ def singleline_string_literal(string: str) -> str:
 def multiline_string_literal(string: str) -> str:
     string = str(string)[3:-3]
     all_lines = string.splitlines()
+    if string.endswith(("\n", "\r")):
+        # splitlines() does not report the (empty) last line after a trailing line break.
+        all_lines.append("")
     lines: list[str] = []
     last_line = ""
 
